@@ -16,7 +16,13 @@ spec/C14/BimgHist.tla  : R-spec, history layer. ONE object that lives on: every 
                          history the export must be the image Bimg prescribes for the current case (= the image of a fresh object).
 spec/C14/BimgHistGen.tla : MC + GEN of histories (the history is part of the state): exhaustive lanes (all sequences of 2 / 3 changes from
                          every requested start, also after a parse) and a -simulate lane (longer, changes without exports in between).
-spec/C14/BimgTrace.tla : TV. One trace per executed case or history; every logged number is recomputed by the spec.
+spec/C14/BimgKinds.tla : MC + GEN of the dimension "application containers of every kind the family supports" (harness/c14_kinds.py): every
+                         (target, authentication) image of the family's MBI table (plain, CRC, signed with certificate block v1 RSA / v2.1 ECDSA,
+                         NXP-signed, encrypted), HAB plain, AHAB unsigned / signed x supplied as a binary file / as the YAML configuration of the
+                         container (the segment holds the container OBJECT) x load_from_config + export / `nxpimage bootable-image merge` x full
+                         image / image that starts at the container; the payload of a case is the container's STANDALONE export.
+spec/C14/BimgTrace.tla : TV. One trace per executed case or history; every logged number is recomputed by the spec (clause ContOk: the container
+                         of a trace of the kinds lane is the standalone container - byte-identical, or equal outside a randomised signature that verifies).
 
 Python only EXECUTES: it builds real payloads (MBI / HAB / AHAB containers through the public builders, SB2.1 / SB3.1 golden
 files, FCB / XMCD through their classes, marker-filled key blobs ...), drives the real BootableImage through
@@ -63,7 +69,7 @@ def inventory():
                     segs.append({"name": name, "off": int(off) if off >= 0 else -1, "size": max(int(cls.SIZE), 0),
                                  "al": int(cls.OFFSET_ALIGNMENT), "cfg": cls.cfg_key(),
                                  "opt": name not in VERSION and (name not in CONTAINERS or off < 0),
-                                 "raw": name in RAW, "fixed": name in FIXED and int(cls.SIZE) > 0})
+                                 "raw": name in RAW, "fixed": name in FIXED and int(cls.SIZE) > 0, "cont": name in CONTAINERS})
                 sig = ("ones:" if pat == "ones" else "") + ",".join(f"{s['name']}@{s['off']:x}" if s["off"] >= 0 else f"{s['name']}@dyn{s['al']}" for s in segs)
                 key = json.dumps([pat, segs], sort_keys=True)
                 if key not in index:
@@ -631,7 +637,7 @@ class Exec:
 
 
 def strip(t):
-    return {k: t[k] for k in ("id", "tb", "present", "plen", "req", "ev")}
+    return {k: t[k] for k in ("id", "tb", "present", "plen", "req", "ev", "kd") if k in t}      # kd: header of the lane "container kinds" only
 
 
 # ------------------------------------------------------------------ verdict plumbing
@@ -729,7 +735,12 @@ def validate(v, tables, table_file, traces):
         info = t.get("info", {})
         done = [e for e in t["ev"][:matched + 1] if e["ev"] in ("SetInit", "SetSeg", "ClearSeg", "Reparse")]
         story = (" after " + " ; ".join(f"{e['ev']}({', '.join(f'{k}={e[k]}' for k in ('req', 'eff', 'i', 'len') if k in e)})" for e in done)) if done else ""
-        v.violation(key_of(t, tables, matched),
+        kf = key_of
+        if info.get("mode") == "kinds":
+            import c14_kinds
+
+            kf = c14_kinds.key_of
+        v.violation(kf(t, tables, matched),
                     f"{info.get('family')}/{info.get('revision')}/{info.get('mem_type')} [{info.get('mode')}] present={t['present']} plen={t['plen']} "
                     f"req={t['req']:#x}{story}: event #{matched + 1} ({evname}) is not the reader's next step: {json.dumps(ev)[:300]}",
                     {"trace": t, "table": tables[t["tb"] - 1], "failed_event": matched + 1})
@@ -877,7 +888,7 @@ def hist_canaries(hists, tables):
     return variants, want
 
 
-def canary(cases, table_file, hists=None, tables=None):
+def canary(cases, table_file, hists=None, tables=None, kinds=None):
     """A known-good trace (built from a case and the placement the spec itself emitted - independent of SPSDK) must be accepted,
     and rejected after corrupting one logged number / fact.  The same for histories: spec-generated history traces are accepted,
     the traces of an object that ignores / half-applies the last change are rejected."""
@@ -926,6 +937,13 @@ def canary(cases, table_file, hists=None, tables=None):
         variants += hv
         want |= hwant
         n_good += len(hv) - len(hwant)
+    if kinds:       # the lane "container kinds": (spec-generated cases, offers)
+        import c14_kinds
+
+        kv, kwant = c14_kinds.canary_traces(kinds[0], kinds[1], tables)
+        variants += kv
+        want |= kwant
+        n_good += len(kv) - len(kwant)
     rej, _ = tlc.tv("C14", "BimgTrace", variants, env={"TABLE_FILE": table_file})
     if set(rej) != want:
         raise Machinery(f"canary failed: rejected {sorted(rej)}, expected exactly {sorted(want)}")
@@ -1206,15 +1224,20 @@ def run(tier):
     v.extra["histories_executed"] = len(htraces)
     say(f"[C14] {len(htraces)} histories executed on {len(hcovered)} triples ({v.timer.s()}s)")
 
-    v.extra["canary"] = canary(cases, table_file, hists, tables)
-    validate(v, tables, table_file, traces + htraces)
+    # ---- application containers of every kind the family supports, as a binary and as a YAML configuration, through the API and the command
+    import c14_kinds
+
+    ktraces, kcases, koffers = c14_kinds.run_lane(v, tier, tables, triples, mats, table_file)
+    v.extra["canary"] = canary(cases, table_file, hists, tables, (kcases, koffers))
+    validate(v, tables, table_file, traces + htraces + ktraces)
     parsed = sum(1 for t in traces if t["ev"][-1]["ev"] == "Done")
     v.extra["parsed_back_completely"] = parsed
     v.extra["tables"] = [t["sig"] for t in tables]
     v.extra["material_notes"] = mats.notes
     v.cov["exhaustive"] = tier == "thorough"
     v.cov["checker_cmd"] = ("TLC BimgMC (lemmas over all cases of all tables, case emission) ; TLC BimgHistGen (lemmas over all states of all histories, "
-                            "history emission; -simulate for the long lane) ; TLC BimgTrace (decides every executed case and history)")
+                            "history emission; -simulate for the long lane) ; TLC BimgKinds (lemmas over all walks of container kind x form x route x start, case emission) ; "
+                            "TLC BimgTrace (decides every executed case and history)")
     v.cov["rule"] = (
         f"cases = initial states of BimgMC: for each of the {len(tables)} distinct segment tables of the device database, every subset of optional "
         "segments x payload length menu (every fixed-size segment kind - key blob, key store, BEE header, FCB - in the three length classes shorter than its slot "
@@ -1236,7 +1259,16 @@ def run(tier):
            "with an export after each, the same after the object was replaced by the parse of its own export, 66 simulated histories of 6 changes (snapping starts, "
            "exports / parses anywhere)")
         + "; every generated history is executed, triples of a table in rotation (every triple at least one history); after every export TLC walks the image "
-        "of the CURRENT case; a history is non-trivial if the live object was changed at least once and exported again, distinct by (triple, initial case, history)")
+        "of the CURRENT case; a history is non-trivial if the live object was changed at least once and exported again, distinct by (triple, initial case, history). "
+        "container kinds = initial states of BimgKinds: offers (one container kind of one device: every (execution target, authentication type) image of the family's MBI "
+        "table - plain, CRC, signed with certificate block v1 RSA / v2.1 ECDSA, NXP-signed, encrypted+signed -, HAB plain, AHAB unsigned / signed; payload = the standalone "
+        "export of the container's configuration through the public builder) x form (binary file / YAML configuration of the container) x route (load_from_config + export / "
+        "nxpimage bootable-image merge) x requested start (0 / the container's offset); "
+        + ("every (family, table, construction) on one revision of the family, every generated case executed"
+           if tier == "thorough" else
+           "one device (drawn with the seed) per distinct construction (kind x image type x export mixins) plus one per kind whose container does not lie at offset 0; executed: "
+           "YAML form on both routes as a full image, YAML form through the API as an image that starts at the container, binary form through the API")
+        + "; non-trivial if the container was located in the exported bytes, distinct by (device, kind, form, route, start)")
     v.assumptions += [
         "application containers are mandatory, the secondary container set and all header blocks except the image version are optional",
         "payloads differ from the fill pattern in their first and last byte (an all-pattern block is indistinguishable from an absent one; the image version word "
@@ -1247,7 +1279,14 @@ def run(tier):
         "requested starts inside the dynamic part of a table (behind the last static offset) and negative starts are outside the asserted domain",
         "segment sizes and the alignment of dynamic segments (1024) are read from the segment classes at run time; offsets and the fill pattern from the device database",
         "the init_offset spelled as a segment NAME in a configuration file is refused by the schema (format: number) although load_from_config handles it: observation, not asserted",
-        "containers are unsigned / CRC images built through the public MBI, HAB and AHAB builders; SB2.1 / SB3.1 files are golden binaries (anchors/C14)",
+        "cases and histories: containers are unsigned / CRC images built through the public MBI, HAB and AHAB builders; SB2.1 / SB3.1 files are golden binaries (anchors/C14); "
+        "the other container kinds are the subject of the lane 'container kinds' (fresh object, no histories)",
+        "container kinds: a deterministic construction (plain, CRC, RSA PKCS#1 v1.5 signature, AES-CTR with the configured counter) must give the bytes of the standalone export; "
+        "a container with a randomised signature (ECDSA, RSA-PSS: MBI certificate block v2.1 without ISK certificate, signed AHAB) must be as long, equal outside the signature, "
+        "and its signature must verify over the bytes found in the image (cryptography primitives; AHAB: the acceptance reader of C06 takes the same steps with the same facts)",
+        "container kinds: the parse of an image with an ENCRYPTED MBI is not asserted (the parser is not given the key); authenticated / encrypted HAB containers (CSF with CMS "
+        "signatures that carry the signing time) and MBI certificate blocks with an ISK certificate are not in the lane - the composition lane sys_bimgrom merges authenticated "
+        "HAB containers from YAML and walks them with the HAB reader of C07",
         "histories: a live object is changed only through the public API (init_offset setter, set_init_offset, load_config / clear of segment objects taken from the "
         "public `segments` list, parse of its own export); a refused init offset, clearing the application container or the image version and a floating segment "
         "without its predecessor are not part of a history (what the object is afterwards is not settled by the property)",
@@ -1275,6 +1314,22 @@ def replay(path):
     table_menus(tables, triples, mats, small=(body.get("tier") == "quick"))
     table_file = os.path.join(scratch(), "c14-tables.json")
     json.dump(tables, open(table_file, "w"))
+    if info.get("mode") == "kinds":         # the same kind / form / route / start on the same device
+        import c14_kinds
+
+        t = c14_kinds.replay_case(t0, tables, triple, mats)
+        if t is None:
+            say(f"replay: the container kind {info.get('kind')} can no longer be built standalone for {info['family']}")
+            return 2
+        say(json.dumps({k: t[k] for k in ("present", "plen", "req", "kd", "ev")})[:3000])
+        rej, _ = tlc.tv("C14", "BimgTrace", [strip(t)], env={"TABLE_FILE": table_file})
+        if rej:
+            m = list(rej.values())[0][0]
+            say(f"VIOLATION property=C14 replay={path}")
+            say(f"  key={c14_kinds.key_of(t, tables, m)} rejected at event #{m + 1}: {json.dumps(t['ev'][min(m, len(t['ev']) - 1)])[:300]}")
+            return 1
+        say("replay: trace accepted by the spec")
+        return 0
     if info.get("mode") == "history":       # the history as TLC emitted it, on the same triple
         t = Exec(tables, mats).run_hist(t0["id"], dict(info["case"], hist=info["hist"], lane=info.get("lane", "")), triple)
         t["info"]["selfparse"] = info.get("selfparse", True)
